@@ -135,9 +135,13 @@ def scenarios(rnd):
     for r in (rnd.choice([1, 2]), 3):
         T = rnd.choice([150, 200])
         st = [ev(0, rc(0, 1, {"k": "asr", "nid": {"v": 1077}})),
-              ev(15, rc(0, 2, {"k": "est", "nid": {"v": 1077}, "fseid": {"v": 10}, "ops": {"cFAR": [1]}}))]
+              ev(15, rc(0, 2, {"k": "est", "nid": {"v": 1077}, "fseid": {"v": 10}, "ops": {"cFAR": [1]}})),
+              ev(25, rc(1, 1, {"k": "asr", "nid": {"v": 1}})),
+              ev(35, rc(1, 2, {"k": "est", "nid": {"v": 1}, "fseid": {"v": 20}, "ops": {"cFAR": [1]}}))]
         t0 = 60
-        st += [ev(t0, dld(1)), dump(t0 + 0.5 * T), dump(t0 + (r + 1.6) * T)]
+        # a second report, for a session of a reachable peer, while the first request is outstanding: the two requests
+        # carry different sequence numbers although the first one's initial write failed
+        st += [ev(t0, dld(1)), ev(t0 + 0.25 * T, dld(2)), dump(t0 + 0.5 * T), dump(t0 + (r + 1.6) * T)]
         out.append({"name": "c09-unreachable-peer", "retrans_ms": T, "maxretrans": r, "txseq0": 0, "steps": st,
                     "end_ms": int(t0 + (r + 1.8) * T), "unreachable": "192.0.2.77"})
     for c in out:
@@ -237,6 +241,12 @@ def mon_c09_timed(case, o):
         t0 = [t for t, e in _deliveries(case, o) if e["t"] == "report"][0]
         for dmp in o["dumps"] or []:
             keys = [x["key"] for x in (dmp["dump"].get("tx") or [])]
+            seqs = [k.rsplit("-", 1)[-1] for k in keys]
+            if len(set(seqs)) != len(seqs):
+                bad.append("two outstanding Session Report Requests carry the same sequence number: %s" % sorted(keys))
+            if t0 + 0.25 * T + tol / 2 < dmp["t_ms"] < t0 + T - tol and len(keys) < 2:
+                bad.append("%d ms after two reports (one towards a peer every write to which fails) the transaction table holds %s: "
+                           "one request took the other's place" % (dmp["t_ms"] - t0, sorted(keys)))
             mine = [k for k in keys if k.startswith(case["unreachable"] + ":8805-")]
             if dmp["t_ms"] > t0 + (r + 1) * T + tol and mine:
                 bad.append("transaction %s (every write to the peer fails) still in the table %d ms after the first attempt: budget %d x %d ms"
